@@ -291,7 +291,12 @@ class _SymDouble:
         if self.stream is not None:
             self.stream.seek(0)
             self.stream.read(1)
-        return self.Symbol({'st_name': 0}, self.names[idx])
+        # a complete entry, as the real tables hand out; the section index is arbitrary (SHN_UNDEF included: an undefined symbol
+        # placed in the hashed part - e.g. a canonical PLT entry - is found like any other)
+        shndx = self.ctx.choice('sym%d.shndx' % idx, ['SHN_UNDEF', 1, 'SHN_ABS', 0x1234])
+        entry = {'st_name': 0, 'st_value': 0x100 + idx, 'st_size': 0, 'st_info': {'bind': 'STB_GLOBAL', 'type': 'STT_FUNC'},
+                 'st_other': {'visibility': 'STV_DEFAULT', 'local': 0}, 'st_shndx': shndx}
+        return self.Symbol(entry, self.names[idx])
 
 
 def h_sysv_lookup(ctx):
